@@ -39,6 +39,7 @@ def required(tier):
         "filter.accept_all.glr": 500,
         "filter.accept_all.lr": 300,
         "filter.reject_production.glr": 500,
+        "filter.reject_production.lr": 200,
         "filter.reject_shift.glr": 300,
         "filter.precedence.lr": 300,
         "filter.precedence.glr": 300,
@@ -270,6 +271,37 @@ def one_table(ctx):
                     continue
                 if ka == "ret":
                     completeness_lr(ctx, case, f3.log, va)
+            # LR: a filter that rejects every reduction of one dynamic production - whatever the
+            # parse then does (it may well fail), it never returns a tree built with that reduction
+            dyn_ops2 = [o for o in ops if dynp[o]]
+            if dyn_ops2:
+                victim2 = "op%d" % ops.index(rng.choice(dyn_ops2))
+                try:
+                    f8 = Filter(lambda context, fs, ts, action, production, sub: not (action is REDUCE and len(production.rhs) == 3 and production.rhs[1].name == victim2))
+                    lrj = pgx.lr(pgx.grammar(text), dynamic_filter=f8, prefer_shifts=False, prefer_shifts_over_empty=False, build_tree=True)
+                except Exception as e:  # noqa: BLE001
+                    ctx.count("lr_reject_construction_failed:" + type(e).__name__)
+                    lrj = None
+                for x in exprs if lrj is not None else []:
+                    case = {"grammar": text, "filter": "reject:" + victim2, "parser": "LR", "expr": x}
+                    del f8.log[:]
+                    try:
+                        kj, vj = pgx.outcome(lrj.parse, x)
+                    except (pgx.CaseTimeout, pgx.BudgetExceeded):
+                        continue
+                    ctx.count("filter.reject_production.lr")
+                    if not discipline(ctx, case, f8.log, lrj.grammar):
+                        continue
+
+                    def uses2(t):
+                        if t.is_term():
+                            return False
+                        if len(t.production.rhs) == 3 and t.production.rhs[1].name == victim2:
+                            return True
+                        return any(uses2(c) for c in t.children)
+
+                    if kj == "ret" and uses2(vj):
+                        ctx.violation("rejected-action-taken", case, "LR: the filter rejected every reduction of %s, the returned tree contains one" % victim2)
     partial_marks(ctx, rng, ops, exprs, grammar_text)
     # --- precedence-encoding filter == static priorities == climbing --------------
     alld = {o: True for o in ops}
